@@ -203,7 +203,7 @@ def run(ctx):
     ctx.cov["unifiable_pairs"] = n_unif
     ctx.cov["rejected_pairs"] = n_reject
     bad = core.coq_mismatches(ctx.work, "cm", ["Ir.Syntax", "Ir.CouldMatch"], fn="(fun p => could_match false (fst p) (snd p))",
-                              eqb="Bool.eqb", in_ty="tm * tm", out_ty="bool", pairs=coq_pairs, shard=ctx.n(500, 2000))
+                              eqb="implb", in_ty="tm * tm", out_ty="bool", pairs=coq_pairs, shard=ctx.n(500, 2000))
     sl_pairs = []
     for (a, b), c in zip(slices, cms):
         if c not in ("true", "false"):
@@ -211,16 +211,19 @@ def run(ctx):
         ctx.count("slices", (sx.to_sexp(a), sx.to_sexp(b)), nontrivial=(a != b))
         sl_pairs.append((Pair(a, b), c == "true"))
     bad_s = core.coq_mismatches(ctx.work, "cms", ["Ir.Syntax", "Ir.CouldMatch"], fn="(fun p => could_match_slice (fst p) (snd p))",
-                                eqb="Bool.eqb", in_ty="list tm * list tm", out_ty="bool", pairs=sl_pairs, shard=500)
+                                eqb="implb", in_ty="list tm * list tm", out_ty="bool", pairs=sl_pairs, shard=500)
     ctx.cov["model_mismatches"] = len(bad) + len(bad_s)
     ctx.cov["rule"] = ("sweep: all pairs of %d representative types covering every TyKind head (equal/different ids, arities, children), all lifetime and const head pairs, mixed-kind generic args; "
                        "mutated: random types / domain goals / trait refs / where clauses paired with 0-3 random edits (generalise a subterm to a variable, change an id/scalar/mutability/arity, replace a subterm); "
                        "slices: argument lists incl. length mismatch. For every pair the real unifier is also run. non-trivial = a != b" % len(reps))
+    # Relation: REFINEMENT, not equality -- `model says true => implementation says true` (implb).  The theorem
+    # gives unifiable => model true, so this is exactly what transfers the property; an implementation that is
+    # more permissive than the model (a weaker filter) is harmless and is not reported.
     if viol == 0:
         # the property holds on every explored input of the implementation; report model drift
         for j in bad[:2]:
             (a, b), impl = coq_pairs[j][0], coq_pairs[j][1]
-            direction = "implementation rejects a pair the model accepts" if not impl else "implementation accepts a pair the model rejects"
+            direction = "implementation rejects a pair the model accepts"
             # impl=false & model=true on a pair where a unifier exists would be a violation; search near the pair
             found = None
             if not impl:
@@ -230,11 +233,11 @@ def run(ctx):
                                "what": "real relate succeeds but real could_match answers false (found by directed search around a model/implementation disagreement)"})
             else:
                 ctx.violation({"kind": "correspondence", "a": sx.to_sexp(a), "b": sx.to_sexp(b), "implementation": impl, "direction": direction,
-                               "broken": "correspondence Ir.CouldMatch.could_match = CouldMatch::could_match; theorem Props.C18.could_match_complete is about the model"}, no_input=True)
+                               "broken": "refinement Ir.CouldMatch.could_match a b = true -> CouldMatch::could_match a b = true; theorem Props.C18.could_match_complete is about the model; no pair accepted by the real unifier and rejected by the real filter was found"}, no_input=True)
         for j in bad_s[:1]:
             (a, b), impl = sl_pairs[j][0], sl_pairs[j][1]
             ctx.violation({"kind": "correspondence", "a": sx.to_sexp(a), "b": sx.to_sexp(b), "implementation": impl,
-                           "broken": "correspondence Ir.CouldMatch.could_match_slice = <[GenericArg] as CouldMatch>::could_match"}, no_input=True)
+                           "broken": "refinement Ir.CouldMatch.could_match_slice l l' = true -> <[GenericArg] as CouldMatch>::could_match l l' = true"}, no_input=True)
     filter_differential(ctx)
     impl_selection(ctx)
     if not ok:
@@ -466,6 +469,10 @@ def impl_selection(ctx):
                 else:
                     gp = t_mutate(r, gp, GOAL_TVARS)
             goals.append("exists<T0, T1, int N, float F, 'x> { forall<'b, A> { %s: Foo<%s> } }" % (t_text(gs), t_text(gp)))
+        # directed: a bare unknown of every kind in each argument position (unifies with every header shape
+        # its kind admits, so the selection must keep all those impls)
+        for a, b in (("T0", "T1"), ("N", "T0"), ("T0", "N"), ("F", "T0"), ("T0", "F"), ("N", "F"), ("A", "T0"), ("T0", "A")):
+            goals.append("exists<T0, T1, int N, float F, 'x> { forall<'b, A> { %s: Foo<%s> } }" % (a, b))
         cases.append(("Case", sx.Str(text), [sx.Str(g) for g in goals]))
         meta.append((text, goals))
     outs = core.run_harness("implsel", cases, timeout=600)
@@ -527,6 +534,25 @@ def search_unifiable(ctx, g, a, b):
 
 
 def replay(ctx, obj):
+    if "discarded_applicable_impls" in obj:
+        core.build_harness(bins=["implsel"])
+        o = core.run_harness("implsel", [("Case", sx.Str(obj["program"]), [sx.Str(obj["goal"])])], shards=1)[0]
+        print("impls_for_trait (returned | unifiable):", o)
+        v = sx.parse_sexp(o)
+        g = v[1][0] if sx.head(v) == "Result" and v[1] else None
+        return 1 if (g is None or sx.head(g) != "G" or set(g[2]) - set(g[1])) else 0
+    if "answer_with_filter" in obj:
+        from vlib import logic, proggen as pg
+        core.build_harness(bins=["solve"])
+        case = [pg.case(obj["program"], [obj["goal"]], obj["solver"], "Fresh", [("Cpu", 10)])]
+        a = logic.solve_cases(case)[0]
+        os.environ["CHALK_VERIF_NO_FILTER"] = "1"
+        try:
+            b = logic.solve_cases(case)[0]
+        finally:
+            del os.environ["CHALK_VERIF_NO_FILTER"]
+        print("with filter:", a["goals"], "\nwithout filter:", b["goals"])
+        return 0 if sx.to_sexp(list(a["goals"][0])) == sx.to_sexp(list(b["goals"][0])) else 1
     core.build_harness(bins=["irbin"])
     a, b = sx.parse_sexp(obj["a"]), sx.parse_sexp(obj["b"])
     c = core.run_harness("irbin", [("CouldMatch", a, b)], shards=1)[0]
